@@ -4,6 +4,7 @@ import (
 	"bytes"
 	"encoding/json"
 	"fmt"
+	"strings"
 	"time"
 
 	sif "github.com/lidofinance/dc4bc/fsm/state_machines/signing_proposal_fsm"
@@ -150,6 +151,12 @@ func c07(tier string, args []string) int {
 		bigTasks = append(bigTasks, requests.SigningTask{MessageID: fmt.Sprintf("big-%02d", i), File: fmt.Sprintf("file-%02d", i), Payload: pl})
 	}
 	jobs = append(jobs, job{n: 3, t: 2, cfgs: mk(3, 2, []Batch{{ID: "batch-big", Tasks: bigTasks}, b2}, [][]int{nil}, none)})
+	// ... and one whose file names grow sixfold when JSON-escaped
+	var escTasks []requests.SigningTask
+	for i := 0; i < 125; i++ {
+		escTasks = append(escTasks, requests.SigningTask{MessageID: fmt.Sprintf("esc-%02d", i), File: strings.Repeat("&", 1000) + fmt.Sprint(i), Payload: []byte(fmt.Sprintf("payload %d", i))})
+	}
+	jobs = append(jobs, job{n: 3, t: 2, cfgs: mk(3, 2, []Batch{{ID: "batch-escaped-names", Tasks: escTasks}}, [][]int{nil}, none)})
 	if tier == "thorough" {
 		jobs = append(jobs,
 			job{n: 3, t: 2, cfgs: mk(3, 2, []Batch{b1, b2, b3}, [][]int{nil}, none)},
